@@ -67,6 +67,14 @@ def step (toks : List String) : String :=
         | .ok s => p6Str s.p)
       hxs Ms ++ " | " ++ " | ".intercalate outs
     | _, _ => "bad-op"
+  | "hstep" :: G :: m0 :: dt :: rest =>
+    let ps := parts7 (rest.map fl)
+    let Ms := hybridMassParams (fl G) (fl m0) (ps.map (·.1))
+    let outs := (Ms.zip ps).map (fun (M, (_, p)) =>
+      match solve M (fl dt) p with
+      | .error h => hangStr h
+      | .ok s => p6Str s.p)
+    hxs Ms ++ " | " ++ " | ".intercalate outs
   | _ => "bad-op"
 
 def main : IO Unit := runLines step
